@@ -718,6 +718,16 @@ func (c *SpecCtx) call(x *SExpr) Value {
 		}
 		arr := e.heapGet(c.st, names[0], sorts[0])
 		return scInt(sx(f, mkSelect(arr, b.Arr), b.Off, b.Len))
+	case "tracelen":
+		return scInt(e.traceLenTerm(c.st, x.Args[0].String()))
+	case "traceat":
+		// traceat(ch, k, i): component k of the record at position i of channel ch
+		k := atoi(x.Args[1].String())
+		return scInt(e.traceAt(c.st, x.Args[0].String(), k, c.intTerm(c.eval(x.Args[2]))))
+	case "traceev":
+		// traceev(ch, k, i): component k at position i, as an interface value (event)
+		k := atoi(x.Args[1].String())
+		return &Iface{T: e.traceAt(c.st, x.Args[0].String(), k, c.intTerm(c.eval(x.Args[2]))), Typ: types.NewInterfaceType(nil, nil)}
 	case "disjoint":
 		a, ok1 := c.eval(x.Args[0]).(*Slice)
 		b, ok2 := c.eval(x.Args[1]).(*Slice)
